@@ -405,4 +405,59 @@ theorem join_in_loop_full_fails : ¬ join_in_loop_full := by
       abandoned := false } (by decide) (by decide) rfl (by decide) (by decide)
   rcases this with h | h <;> cases h
 
+/-! ## Facts tie: the decision table of the `join()` loop and of `next_done()`, probed on the
+real class on every run (`tools/facts/c09.py`: real tasks on a real loop, public API only) -/
+
+def policyOfName : String → Option Policy
+  | "all" => some .all | "any" => some .any | "object" => some .object | "none" => some .nowait
+  | _ => none
+
+def outcomeOfName : String → Option Outcome
+  | "n" => some .none | "v" => some .val | "e" => some .exc | "c" => some .cancelled
+  | _ => none
+
+/-- the model's answer for one row: member 0 has finished with outcome `o` and is queued, member
+1 is running, `completed` was preset or not: (the loop stops, `completed` becomes member 0) -/
+def modelStopRow (p : Policy) (o : Outcome) (before : Bool) : Bool × Bool :=
+  let g : G := { wait := p, mem := [⟨0, false, .done, o, []⟩, ⟨1, false, .run, .none, []⟩],
+                 pending := [1], doneq := [0], sem := 1, log := [0],
+                 completed := if before then some 9 else none }
+  (g.stopAfter 0 [], (g.popT 0 []).completed == some 0)
+
+/-- the same scenario end to end through `react` (rows in which `completed` was not preset):
+(member 1 was cancelled by the group, `completed` is member 0) -/
+def modelStopHistory (p : Policy) (o : Outcome) : Bool × Bool :=
+  let fin : List Action := match o with
+    | .cancelled => [.extCancel 0 [], .finCancel 0 []]
+    | o => [.finish 0 o []]
+  let g := (runAll (init p) ([.spawn 0 false [], .spawn 1 false []] ++ fin ++ [.join [1]])).1
+  (g.statusOf 1 == some .canc, g.completed == some 0)
+
+/-- **tie**: every row of the probed table (3 looping policies × 4 outcomes × `completed` preset
+or not - all 24 present) is what `G.stopAfter` / `G.popT` say, and - where `completed` was not
+preset - what the whole reactive model does on that history.  A change of the stop test or of
+the `completed` rule in `join()` changes a row and breaks this obligation. -/
+theorem facts_stop_table :
+    Facts.C09.stopTable.map (fun r => (r.1, r.2.1, r.2.2.1)) =
+      (["all", "any", "object"].flatMap fun p => ["n", "v", "e", "c"].flatMap fun o =>
+        [false, true].map fun b => (p, o, b)) ∧
+    Facts.C09.stopTable.all (fun r =>
+      match policyOfName r.1, outcomeOfName r.2.1 with
+      | some p, some o =>
+        modelStopRow p o r.2.2.1 == (r.2.2.2.1, r.2.2.2.2) &&
+          (r.2.2.1 || modelStopHistory p o == (r.2.2.2.1, r.2.2.2.2))
+      | _, _ => false) = true := by
+  decide
+
+/-- **tie**: `next_done()` on an idle group - nothing there: None at once; a finished member:
+that member; only a pending member: the caller has to wait - as `G.apply (.nextDone ..)` -/
+theorem facts_next_done_table :
+    Facts.C09.nextDoneTable = [("empty", "none"), ("one-done", "head"), ("one-pending", "blocks")] ∧
+    ((init .all).apply (.nextDone 0 [])).2 = [Obs.nextDone 0 none] ∧
+    ((runAll (init .all) [.spawn 0 false [], .finish 0 .val []]).1.apply (.nextDone 0 [])).2 =
+      [Obs.nextDone 0 (some 0)] ∧
+    ((runAll (init .all) [.spawn 0 false []]).1.apply (.nextDone 0 [])).2 =
+      [Obs.nextDoneBlocked 0] := by
+  decide
+
 end Aiorpcx.C09
